@@ -25,7 +25,7 @@ from concurrent.futures import ThreadPoolExecutor
 from lib.vlib import Inconclusive, write_ndjson, read_ndjson, go_env
 from checks import server_family
 
-ALLOC_SLACK = 8 << 20
+ALLOC_SLACK = 24 << 20   # honest handler calls reach 8.4 MiB (sqlite/wazero, RSA) on a loaded machine; blow-ups the property is about are >= 10x that
 ENTRY_OVERHEAD = 2048      # volume family: bookkeeping allowed per list entry / map key / string beyond 64 bytes per byte
 
 
@@ -464,7 +464,7 @@ def run(ctx):
     ctx.sample([e for e in muts if e.get("resp") == 255][:2])
     ctx.sample([e for e in cevs if e["hit"]][:2])
     sequence_stages(ctx)
-    ctx.assumptions += ["allocation oracle: TotalAlloc delta of the handler call <= 64*len(request)+8 MiB (volume family: + 2 KiB per added entry), measured with one world per process",
+    ctx.assumptions += ["allocation oracle: TotalAlloc delta of the handler call <= 64*len(request)+24 MiB (volume family: + 2 KiB per added entry), measured with one world per process",
                         "hang oracle: a handler call that has not returned after 90 s, a client run that has not returned after 100 s (75 s after its context expired)",
                         "mutants are seeded structure-aware mutations (cb.Mutate) and the deterministic families of MutantClasses.tla (cb.Sweep, cb.Inner, cb.Volume), not all byte strings",
                         "signed level: authentication is repaired with the keys the harness owns (owner key for to1d / 61 / 65, device key for the tokens of 32 / 64, manufacturer key for the first voucher entry); voucher-internal signatures and HMACs are not repaired"]
